@@ -31,7 +31,12 @@ static Circuit randomPlacedCircuit(Rng &rng, std::string &desc) {
     }
     c.addNet(cells, xo, yo, 1.0f);
   }
-  desc = "scale=" + std::to_string(o.scale);
+  if (rng.chance(0.25)) {  // far from the origin: beyond what a 24-bit float mantissa holds
+    auto pick = [&]() { long long m = rng.range(1LL << 24, 1LL << 28); return (int)(rng.chance(0.5) ? m : -m); };
+    int dx = pick(), dy = pick();
+    for (int i = 0; i < c.nbCells(); ++i) { c.cellX_[i] += dx; c.cellY_[i] += dy; }
+    desc = "translated";
+  } else desc = "scale=" + std::to_string(o.scale);
   return c;
 }
 
